@@ -39,6 +39,27 @@ func waterCase(tag string, g *hermes.GlobalVarsMain, l *hermes.WaterSharedVars, 
 	}
 	q10 := g.Q1[0]
 	tp0 := append([]float64{}, g.TP[:n]...)
+	// independent of the kernel: which layer may receive capillary rise, and the tabulated amount
+	capLayer, capInc := 0, 0.0
+	for i := 0; i < n; i++ {
+		if l.NFK[i] < 0.7 {
+			capLayer = i + 1
+		}
+	}
+	if capLayer > 0 {
+		dist := g.GRW + 1 - float64(capLayer)
+		if dist < 21 {
+			if dist < 0 {
+				dist = 0
+			}
+			if dist > 0.9 {
+				idx := int(math.Round(math.Max(dist, 1))) - 1
+				if idx >= 0 && idx < len(g.CAPS) {
+					capInc = g.CAPS[idx] * wdt
+				}
+			}
+		}
+	}
 	hermes.Water(wdt, subd, zeit, g, l)
 	// C06 on the real kernel: per-layer bounds of the sub-step
 	maxCaps := 0.0
@@ -59,6 +80,15 @@ func waterCase(tag string, g *hermes.GlobalVarsMain, l *hermes.WaterSharedVars, 
 		}
 		if wg1 > g.W[i]+maxCaps*wdt+1e-12 {
 			oracleFail("substep-above-field-capacity tag=%s layer=%d end=%v fc=%v", tag, i+1, wg1, g.W[i])
+		}
+		// the tabulated increment itself: only the deepest layer with NFK < 0.7 may exceed field capacity, and by the
+		// table entry of its rounded distance to the groundwater table (the property's "tabulated capillary-rise increment")
+		inc := 0.0
+		if i+1 == capLayer {
+			inc = capInc
+		}
+		if wg1 > g.W[i]+inc+1e-12 {
+			oracleFail("substep-above-tabulated-increment tag=%s layer=%d end=%v fc=%v increment=%v grw=%v", tag, i+1, wg1, g.W[i], inc, g.GRW)
 		}
 	}
 	out := jobj{
